@@ -18,10 +18,10 @@ fn is_numeric_looking(s: &str) -> bool {
         Regex::new(
             r"(?x)
             ^[+-]?(?:
-                # Explicit radices
-                0x[0-9A-Fa-f_]+ |
-                0o[0-7_]+       |
-                0b[01_]+        |
+                # Explicit radices (the integer reader accepts either case of the prefix letter)
+                0[xX][0-9A-Fa-f_]+ |
+                0[oO][0-7_]+       |
+                0[bB][01_]+        |
 
                 # Decimal floats / integers
                 (?:
